@@ -197,4 +197,11 @@ func VP_C19_squashfs_idtable_single() {
 	}
 	c19IDTable([]uint32{id, id})
 }
+func VP_C19_squashfs_idtable_sym() {
+	a, b, c := vp.U32("uid"), vp.U32("gid"), vp.U32("other")
+	if a == b {
+		vp.Cover("uid == gid")
+	}
+	c19IDTable([]uint32{c, a, b})
+}
 func VP_C19_squashfs_idtable_multi() { c19IDTable([]uint32{0, 65534, 1000, 0, 4000000000, 65536, 1000}) }
